@@ -15,6 +15,10 @@ class QuaHoldList(HoldList[QuaHold], QuaNoteList[QuaHold]):
     @staticmethod
     def from_yaml(dicts: List[Dict[str]]) -> QuaHoldList:
         df = pd.DataFrame(dicts)
+        # StartTime is omitted by the format when it is 0
+        if "StartTime" not in df:
+            df["StartTime"] = 0
+        df["StartTime"] = df["StartTime"].fillna(0)
         df["EndTime"] -= df["StartTime"]
         df = df.rename(
             dict(
@@ -33,6 +37,8 @@ class QuaHoldList(HoldList[QuaHold], QuaNoteList[QuaHold]):
         df.offset = df.offset.fillna(0)
         df.column = df.column.fillna(0)
         df.length = df.length.fillna(0)
+        # KeySounds is omitted by the format when there are none
+        df.keysounds = df.keysounds.apply(lambda x: x if isinstance(x, list) else [])
         return QuaHoldList(df)
 
     def to_yaml(self):
